@@ -293,9 +293,20 @@ async def run_c17(spec: dict[str, Any], hist: History, tr: Tracker) -> None:
             if how != 'examine':
                 tr.end(s)
         await loop.quiescent()          # type: ignore[attr-defined]
-        postman = Session(env, hist, 8, Sched(), spec['seed'] + 8)
-        if not await postman.start():
-            return
+        # the deliveries come from a session that never selects anything or,
+        # half of the time when there is one, from a session that has the
+        # mailbox itself selected read-only
+        examiners = [s for s in sessions if s.alive
+                     and tr.cur.get(s.conn.cid) is not None]
+        by_examiner = False
+        if examiners and rng.random() < 0.5:
+            postman = rng.choice(examiners)
+            by_examiner = True
+            tr.count('deliveries_by_examining_session')
+        else:
+            postman = Session(env, hist, 8, Sched(), spec['seed'] + 8)
+            if not await postman.start():
+                return
         delivered: list[int] = []
         for _ in range(rng.randint(1, 3)):
             r = await postman.append(b'INBOX', [rng.choice(FLAGS)]
@@ -314,8 +325,9 @@ async def run_c17(spec: dict[str, Any], hist: History, tr: Tracker) -> None:
                        if not (by_uid.get(u) and b'\\recent' in by_uid[u])]
             if missing:
                 hist.report(
-                    'unclaimed-recent-not-given-to-first-rw-select:'
-                    'after-deselection',
+                    'unclaimed-recent-not-given-to-first-rw-select:' + (
+                        'appended-by-examining-session' if by_examiner
+                        else 'after-deselection'),
                     'after every selection had ended (%s), UIDs %r were '
                     'delivered while nobody had the mailbox selected '
                     'read-write; the next read-write SELECT was not given '
@@ -407,6 +419,37 @@ async def script_ghost_selection(hist: History, tr: Tracker) -> None:
         env.cleanup()
 
 
+async def script_examiner_appends(hist: History, tr: Tracker) -> None:
+    """A session that has the mailbox selected read-only appends into it:
+    the message must be \\Recent for the next read-write SELECT."""
+    env = await make_env('dict')
+    try:
+        await provision(env, hist, 1, random.Random(1))
+        a, b = (Session(env, hist, i, Sched(), i) for i in (1, 2))
+        for s in (a, b):
+            await s.start()
+        await tr.select(a, rw=False)
+        r = await a.append(b'INBOX')
+        uids = list(r.tagged.data[1]) if r.ok and r.tagged is not None \
+            and isinstance(r.tagged.data, tuple) else []
+        if await tr.select(b, rw=True):
+            tr.count('mid_history_first_select_checks')
+            by_uid = {u: f for u, f in zip(b.shadow.uids, b.shadow.flags)}
+            missing = [u for u in uids
+                       if not (by_uid.get(u) and b'\\recent' in by_uid[u])]
+            if missing or not uids:
+                hist.report('unclaimed-recent-not-given-to-first-rw-select:'
+                            'appended-by-examining-session',
+                            'UIDs %r were appended by a session that has '
+                            'the mailbox selected read-only; the next '
+                            'read-write SELECT was not given %r flagged '
+                            '\\Recent' % (uids, missing))
+        tr.end(b)
+        tr.end(a)
+    finally:
+        env.cleanup()
+
+
 class C17(Check):
     pid = 'C17'
     level = 'exploration'
@@ -455,6 +498,8 @@ class C17(Check):
                 await script_first_select_maildir(hist, tr)
             elif spec.get('script') == 'ghost-selection':
                 await script_ghost_selection(hist, tr)
+            elif spec.get('script') == 'examiner-appends':
+                await script_examiner_appends(hist, tr)
             elif 'script' in spec:
                 await script_append_recent(hist, tr,
                                            spec.get('backend', 'dict'))
@@ -477,7 +522,9 @@ class C17(Check):
                 'store-changes-recent',
                 'unclaimed-recent-not-given-to-first-rw-select',
                 'unclaimed-recent-not-given-to-first-rw-select:'
-                'after-deselection')
+                'after-deselection',
+                'unclaimed-recent-not-given-to-first-rw-select:'
+                'appended-by-examining-session')
         viol = [v for v in hist.violations if v['mech'] in mine]
         other = [v['mech'] for v in hist.violations if v['mech'] not in mine]
         if other and not viol and aborted is None:
